@@ -660,6 +660,10 @@ func (c *VCtx) translateCall(sc *Scope, x *ECall) Val {
 	case "abool":
 		h := c.heap(st, "F:sync/atomic.Bool.v", ArrSort(SRef, SInt))
 		return Not(Eq(Select(h, arg(0)), IntLit(0)))
+	case "cellval":
+		// cellval(p): the reference stored in the variable that p points to
+		h := c.heap(st, cellHeapName(SRef), ArrSort(SRef, SRef))
+		return Select(h, arg(0))
 	case "aptr":
 		h := c.heap(st, "F:sync/atomic.Pointer.v", ArrSort(SRef, SRef))
 		return Select(h, arg(0))
